@@ -312,11 +312,18 @@ def ite(g, a, b):
     if isinstance(a, FnRef) and isinstance(b, FnRef) and a.name == b.name:
         return a
     if isinstance(a, Opaque) and isinstance(b, Opaque) and a.tag == b.tag:
-        if a.data is b.data or a.data == b.data:
+        if a.data is b.data or (not isinstance(a.data, (z3.ExprRef, tuple)) and a.data == b.data):
             return a
-        return Opaque(a.tag, ite(g, a.data, b.data))
+        try:
+            return Opaque(a.tag, ite(g, a.data, b.data))
+        except Unsupported:
+            return Opaque(a.tag, ('choice', g, a.data, b.data))
     if hasattr(a, 'ite_with') and type(a) is type(b):
         return a.ite_with(g, b)
+    if hasattr(a, 'ite_mixed'):
+        return a.ite_mixed(g, b, True)
+    if hasattr(b, 'ite_mixed'):
+        return b.ite_mixed(g, a, False)
     raise Unsupported('ite of %r / %r' % (type(a).__name__, type(b).__name__))
 
 
